@@ -319,6 +319,44 @@ def oversize(n: int, k: int, crlf: bool, titan: bool, up: bool) -> bool:
     return V(well_formed(t))
 
 
+# ---- the third trigger of the property: the client stalls past the request timeout ---------------
+SIZES = [1, 7, 1024, 70000]
+SIZE_TXT = [b"1", b"7", b"1024", b"70000"]
+
+
+def stall(kind: int, n: int, k: int, sk: int, late: int) -> bool:
+    """
+    pre: 0 <= kind <= 2 and 0 <= n <= 1100 and 0 <= k <= n + 40 and 0 <= sk < 4 and 0 <= late <= 1
+    post: _
+    """
+    # kind 0: silent inside a gemini line; 1: silent inside a titan line; 2: titan line complete, silent inside the body
+    h = _H(False, False, 20, 0x61, 2, 0x61)
+    p, t, loop = make(h, None, h)
+    if kind == 0:
+        data = mk(b"gemini://h/", Fill(n), b"\r\n")
+    elif kind == 1:
+        data = mk(b"titan://h/f", Fill(n), b";size=5\r\n")
+    else:
+        data = mk(b"titan://h/f;size=", SIZE_TXT[sk], b"\r\n", Fill(SIZES[sk]))
+    total = len(data)
+    if k >= total:
+        k = total - 1                     # at least the last byte never arrives
+    if kind == 2:
+        line = 17 + len(SIZE_TXT[sk]) + 2
+        if k < line:
+            k = line                      # the request line itself is complete
+    first, _ = data.cut(k)
+    if first:
+        p.data_received(first)
+    loop.run_ready()
+    loop.advance(30)                      # the request timeout passes in silence
+    loop.run_ready()
+    if late and not t.closed:
+        p.data_received(mk(b"x"))
+        loop.run_ready()
+    return V(h.calls == 0 and well_formed(t))
+
+
 # ---- the same outcomes behind the PyOpenSSL wrapper ------------------------------------------
 def tls_wrap(st: int, mc: int, bk: int, raises: bool, ec: int, flights: int, coalesce: bool, is_async: bool) -> bool:
     """
@@ -483,6 +521,10 @@ OBLIGATIONS = [
        note="discrete: concrete long lines, the engine forks on the indices"),
     Ob("middleware_outcome", middleware_outcome, quick=240, thorough=900,
        symbolic="middleware outcome (allow / deny / raise with symbolic text), handler outcome, status",
+       functions=F_PROTO, stubs=STUBS),
+    Ob("stall", stall, quick=400, thorough=1200,
+       symbolic="where the client goes silent: inside a gemini line, inside a titan line, or inside a titan body of declared size "
+                "1/7/1024/70000 (filler length 0..1100, stall offset), then the request timeout elapses (virtual clock)",
        functions=F_PROTO, stubs=STUBS),
     Ob("tls_wrap", tls_wrap, quick=500, thorough=1500,
        symbolic="sync/async handler outcome as in sync_outcome, behind TLSServerProtocol + TLSTransportWrapper over StubTLSConn: handshake "
